@@ -6,6 +6,7 @@ import (
 	"go/constant"
 	"go/token"
 	"go/types"
+	"os"
 	"sort"
 	"strconv"
 	"strings"
@@ -122,6 +123,9 @@ type logicEnv struct {
 	depth   int
 	giveUp  string
 	bitops  bool
+	// expandLocals: read single-definition arithmetic locals as their definitions (Implies only:
+	// the tabulations are given domains for the locals themselves)
+	expandLocals bool
 }
 
 // leafKey renders an expression canonically: parentheses and integer
@@ -232,6 +236,59 @@ func simpleBody(fn *Func) ast.Expr {
 	return rs.Results[0]
 }
 
+// guardedReturns: the body is a chain "if c1 { return e1 } ... return en" of
+// single-result returns (a single return statement included).
+func guardedReturns(body *ast.BlockStmt) bool {
+	if body == nil || len(body.List) == 0 || len(body.List) > 6 {
+		return false
+	}
+	for i, st := range body.List {
+		if i == len(body.List)-1 {
+			rs, ok := st.(*ast.ReturnStmt)
+			return ok && len(rs.Results) == 1
+		}
+		is, ok := st.(*ast.IfStmt)
+		if !ok || is.Init != nil || is.Else != nil || len(is.Body.List) != 1 {
+			return false
+		}
+		rs, ok := is.Body.List[0].(*ast.ReturnStmt)
+		if !ok || len(rs.Results) != 1 {
+			return false
+		}
+	}
+	return false
+}
+
+// evalGuardedReturns evaluates a body accepted by guardedReturns.
+func (le *logicEnv) evalGuardedReturns(fn *Func, body *ast.BlockStmt, sub map[types.Object]ast.Expr) lval {
+	last := body.List[len(body.List)-1].(*ast.ReturnStmt).Results[0]
+	if le.collect {
+		out := le.eval(fn, last, sub)
+		for _, st := range body.List[:len(body.List)-1] {
+			is := st.(*ast.IfStmt)
+			c := le.eval(fn, is.Cond, sub)
+			v := le.eval(fn, is.Body.List[0].(*ast.ReturnStmt).Results[0], sub)
+			if !c.ok || !v.ok {
+				out.ok = false
+			}
+			out.deps = append(append([]string{}, out.deps...), v.deps...)
+			out.cs = append(append([]int64{}, out.cs...), v.cs...)
+		}
+		return out
+	}
+	for _, st := range body.List[:len(body.List)-1] {
+		is := st.(*ast.IfStmt)
+		c := le.eval(fn, is.Cond, sub)
+		if !c.ok {
+			return lval{}
+		}
+		if c.b {
+			return le.eval(fn, is.Body.List[0].(*ast.ReturnStmt).Results[0], sub)
+		}
+	}
+	return le.eval(fn, last, sub)
+}
+
 func (le *logicEnv) eval(fn *Func, e ast.Expr, subst map[types.Object]ast.Expr) lval {
 	info := fn.Info()
 	e = ast.Unparen(e)
@@ -274,6 +331,16 @@ func (le *logicEnv) eval(fn *Func, e ast.Expr, subst map[types.Object]ast.Expr) 
 		if obj := info.ObjectOf(x); obj != nil {
 			if r, ok := subst[obj]; ok {
 				return le.eval(fn, r, nil)
+			}
+			// a local defined once as arithmetic over values that never change
+			// (room := 256 - int(firstChar)) stands for its definition
+			if le.expandLocals && le.depth < 6 {
+				if rhs := pureLocalDef(fn, obj); rhs != nil {
+					le.depth++
+					v := le.eval(fn, rhs, subst)
+					le.depth--
+					return v
+				}
 			}
 		} else if x.Name == "nil" {
 			// synthetic nil in formulas built by rules
@@ -413,8 +480,8 @@ func (le *logicEnv) eval(fn *Func, e ast.Expr, subst map[types.Object]ast.Expr) 
 				defs := AssignsTo(info, fn.Decl, obj)
 				if len(defs) == 1 {
 					if as, ok := defs[0].(*ast.AssignStmt); ok && len(as.Rhs) == 1 && len(as.Lhs) == 1 {
-						if fl, ok := ast.Unparen(as.Rhs[0]).(*ast.FuncLit); ok && len(fl.Body.List) == 1 {
-							if rs, ok := fl.Body.List[0].(*ast.ReturnStmt); ok && len(rs.Results) == 1 {
+						if fl, ok := ast.Unparen(as.Rhs[0]).(*ast.FuncLit); ok && guardedReturns(fl.Body) {
+							{
 								sub := map[types.Object]ast.Expr{}
 								for k, v := range subst {
 									sub[k] = v
@@ -430,7 +497,7 @@ func (le *logicEnv) eval(fn *Func, e ast.Expr, subst map[types.Object]ast.Expr) 
 								}
 								if i == len(x.Args) {
 									le.depth++
-									v := le.eval(fn, rs.Results[0], sub)
+									v := le.evalGuardedReturns(fn, fl.Body, sub)
 									le.depth--
 									return v
 								}
@@ -443,7 +510,7 @@ func (le *logicEnv) eval(fn *Func, e ast.Expr, subst map[types.Object]ast.Expr) 
 		// one-line pure method or function of the repository: inline it
 		if callee := Callee(info, x); callee != nil && le.depth < 4 {
 			if cf := le.prog.FuncOf(callee); cf != nil {
-				if body := simpleBody(cf); body != nil {
+				if cf.Decl.Body != nil && guardedReturns(cf.Decl.Body) {
 					sub := map[types.Object]ast.Expr{}
 					okSub := true
 					sig := callee.Type().(*types.Signature)
@@ -467,7 +534,7 @@ func (le *logicEnv) eval(fn *Func, e ast.Expr, subst map[types.Object]ast.Expr) 
 					}
 					if okSub && i == len(x.Args) {
 						le.depth++
-						v := le.eval(cf, body, sub)
+						v := le.evalGuardedReturns(cf, cf.Decl.Body, sub)
 						le.depth--
 						return v
 					}
@@ -532,10 +599,18 @@ func (le *logicEnv) evalFormula(f Formula) (bool, bool) {
 // "no" the counterexample valuation is returned.  decided is false when the
 // number of leaves exceeds the enumeration bound.
 func (p *Program) Implies(a, b Formula) (holds bool, counter string, decided bool) {
-	le := &logicEnv{prog: p, leaves: map[string]bool{}, consts: map[int64]bool{}, collect: true,
+	return p.ImpliesAny(a, []Formula{b})
+}
+
+// ImpliesAny decides a => b1 || b2 || ... (each bi a conjunction).
+func (p *Program) ImpliesAny(a Formula, bs []Formula) (holds bool, counter string, decided bool) {
+	b := bs[0]
+	le := &logicEnv{prog: p, leaves: map[string]bool{}, consts: map[int64]bool{}, collect: true, expandLocals: os.Getenv("PDFVERIF_NOEXPANDLOCALS") == "",
 		parent: map[string]string{}, groupCs: map[string]map[int64]bool{}}
 	le.evalFormula(a)
-	le.evalFormula(b)
+	for _, bi := range bs {
+		le.evalFormula(bi)
+	}
 	le.collect = false
 	var keys []string
 	for k := range le.leaves {
@@ -576,6 +651,12 @@ func (p *Program) Implies(a, b Formula) (holds bool, counter string, decided boo
 		bv, ok2 := true, true
 		if av {
 			bv, ok2 = le.evalFormula(b)
+			for _, bi := range bs[1:] {
+				if bv || !ok2 {
+					break
+				}
+				bv, ok2 = le.evalFormula(bi)
+			}
 		}
 		if !ok1 || !ok2 {
 			return false, le.giveUp, false
@@ -991,4 +1072,107 @@ func EnvGet(env map[string]int64, name string) (int64, bool) {
 		}
 	}
 	return 0, false
+}
+
+// pureLocalDef returns the definition of a local variable of fn that is
+// defined exactly once, by := with an expression built from literals,
+// conversions, len and arithmetic over parameters and locals that are
+// themselves never assigned again (and whose address is not taken); nil
+// otherwise.
+func pureLocalDef(fn *Func, obj types.Object) ast.Expr {
+	v, ok := obj.(*types.Var)
+	if !ok || v.IsField() || v.Pkg() == nil || v.Parent() == nil || v.Parent() == v.Pkg().Scope() || fn.Decl.Body == nil {
+		return nil
+	}
+	if b, isB := v.Type().Underlying().(*types.Basic); !isB || b.Info()&(types.IsInteger|types.IsBoolean) == 0 {
+		return nil
+	}
+	info := fn.Info()
+	defs := AssignsTo(info, fn.Decl, obj)
+	if len(defs) != 1 {
+		return nil
+	}
+	as, ok := defs[0].(*ast.AssignStmt)
+	if !ok || as.Tok != token.DEFINE || len(as.Lhs) != len(as.Rhs) {
+		return nil
+	}
+	var rhs ast.Expr
+	for i, l := range as.Lhs {
+		if ObjOf(info, l) == obj {
+			rhs = as.Rhs[i]
+		}
+	}
+	if rhs == nil {
+		return nil
+	}
+	addrTaken := func(o types.Object) bool {
+		taken := false
+		ast.Inspect(fn.Decl.Body, func(n ast.Node) bool {
+			if u, ok := n.(*ast.UnaryExpr); ok && u.Op == token.AND && ObjOf(info, u.X) == o {
+				taken = true
+			}
+			return !taken
+		})
+		return taken
+	}
+	if addrTaken(obj) {
+		return nil
+	}
+	pure := true
+	arith := false
+	var walk func(e ast.Expr)
+	walk = func(e ast.Expr) {
+		switch x := ast.Unparen(e).(type) {
+		case *ast.BasicLit:
+		case *ast.Ident:
+			o := info.ObjectOf(x)
+			switch ov := o.(type) {
+			case *types.Const, *types.Nil:
+			case *types.Var:
+				if ov.IsField() || ov.Parent() == nil || ov.Pkg() == nil || ov.Parent() == ov.Pkg().Scope() {
+					pure = false
+					return
+				}
+				// a parameter (no definition in the body) or a local defined once
+				if n := len(AssignsTo(info, fn.Decl, ov)); n > 1 || addrTaken(ov) {
+					pure = false
+				}
+			default:
+				pure = false
+			}
+		case *ast.BinaryExpr:
+			arith = true
+			walk(x.X)
+			walk(x.Y)
+		case *ast.UnaryExpr:
+			if x.Op == token.AND || x.Op == token.ARROW {
+				pure = false
+				return
+			}
+			walk(x.X)
+		case *ast.CallExpr:
+			if tv, isT := info.Types[x.Fun]; isT && tv.IsType() && len(x.Args) == 1 {
+				walk(x.Args[0])
+				return
+			}
+			if id, isID := ast.Unparen(x.Fun).(*ast.Ident); isID && len(x.Args) == 1 {
+				if b, isB := info.ObjectOf(id).(*types.Builtin); isB && b.Name() == "len" {
+					arith = true
+					if aid, isArg := ast.Unparen(x.Args[0]).(*ast.Ident); isArg {
+						if ov, isVar := info.ObjectOf(aid).(*types.Var); isVar && !ov.IsField() && len(AssignsTo(info, fn.Decl, ov)) <= 1 && !addrTaken(ov) {
+							return
+						}
+					}
+				}
+			}
+			pure = false
+		default:
+			pure = false
+		}
+	}
+	walk(rhs)
+	if !pure || !arith {
+		return nil
+	}
+	return rhs
 }
